@@ -175,7 +175,7 @@ fn gen_inputs(rng: &mut Rng, thorough: bool, streams: &str, real: u64) -> Vec<In
     if streams == "all" {
         // A: every length 0..3*64+1, all four variants
         //    (quick tier: the variant rotates with the length, except at the padding boundaries)
-        let reps = if thorough { 4 } else { 1 };
+        let reps = if thorough { 3 } else { 1 };
         for len in 0..=(3 * 64 + 1) {
             for (si, &size) in SIZES.iter().enumerate() {
                 let boundary = [0usize, 1, 55, 56, 63, 64, 65, 128].contains(&len);
@@ -190,7 +190,7 @@ fn gen_inputs(rng: &mut Rng, thorough: bool, streams: &str, real: u64) -> Vec<In
             }
         }
         // B: sparse longer messages (block multiples and their neighbours, random lengths)
-        let nlong = if thorough { 600 } else { 10 };
+        let nlong = if thorough { 400 } else { 10 };
         let base = [255usize, 256, 257, 4 * 64 + 55, 4 * 64 + 56, 511, 512, 513, 1000, 1024, 2048 + 17, 4288];
         for k in 0..nlong {
             let size = SIZES[k % 4];
@@ -527,7 +527,7 @@ fn f8_inputs(rng: &mut Rng, thorough: bool) -> Vec<(Vec<u8>, Vec<u8>, &'static s
         v.push((s, b, "flip_on_random"));
     }
     // random and structured
-    let n_rand = if thorough { 6000 } else { 160 };
+    let n_rand = if thorough { 4000 } else { 160 };
     for k in 0..n_rand {
         let (s, b) = if k % 4 == 3 {
             (rng.bytes(128), rng.bytes(64))
